@@ -202,6 +202,13 @@ class Impl:
 
         def copyfile(a, b, *x, **k):
             snap("before")
+            # as the real shutil.copyfile: copying a file onto itself (two names of one inode, or a link to it) is refused
+            try:
+                same = os.path.exists(b) and os.path.samefile(a, b)
+            except OSError:
+                same = False
+            if same:
+                raise shutil.SameFileError("%r and %r are the same file" % (a, b))
             with open(a, "rb") as fa:
                 data = fa.read()
             with open(b, "wb") as fb:               # the file exists under its name before it is complete
@@ -970,7 +977,9 @@ def leftover_leg(res):
             dp = os.path.join(impl.dest, rel(p))
             os.makedirs(os.path.dirname(dp), exist_ok=True)
             tp = os.path.join(os.path.dirname(dp), "tmp." + os.path.basename(dp))
-            kindof = "hard link" if (meth == 2 or rng.random() < 0.3) else rng.choice(["complete copy", "partial copy"])
+            # what the SAME method leaves behind when interrupted: a hard link in link mode, a (partial) copy otherwise.
+            # (A hard link left by a link-mode run and a restart in copy mode is outside the statement: DESIGN 0.3)
+            kindof = "hard link" if meth == 2 else rng.choice(["complete copy", "partial copy"])
             how[rel(p)] = kindof
             if kindof == "hard link":
                 os.link(sp, tp)
